@@ -161,6 +161,58 @@ pub fn c18(opts: &Opts, out: &mut Out) {
             out.oracle("C18:history-independent", call(c) == reference[c], &format!("history {} {:?} position {} after-failing-call-kind {}", hnum, hist, pos, pk), "result depends on the calls that preceded it");
         }
     }
+    // (b2) one parameter object shared by statements of different aggregation, in every order: each proof must equal
+    // the proof made from a freshly constructed parameter object
+    {
+        use tari_bulletproofs_plus::{range_parameters::RangeParameters, range_statement::RangeStatement, ristretto::create_pedersen_gens_with_extension_degree};
+        let fresh = || RangeParameters::<curve25519_dalek::ristretto::RistrettoPoint>::init(8, 4, create_pedersen_gens_with_extension_degree(crate::rrun::deg(2))).unwrap();
+        let mk = |m: usize| {
+            let mut r = chacha(31337, m as u64);
+            rrun::random_inst(8, m, 4, 2, 4, false, &mut r)
+        };
+        let prove_on = |pr: &RangeParameters<curve25519_dalek::ristretto::RistrettoPoint>, m: usize| -> Option<Vec<u8>> {
+            let inst = mk(m);
+            let c = inst.commitments(pr);
+            let st = RangeStatement::init(pr.clone(), c, inst.promises.clone(), None).ok()?;
+            let r = std::panic::catch_unwind(std::panic::AssertUnwindSafe(|| rrun::Proof::prove_with_rng(&mut inst.transcript(), &st, &inst.witness(), &mut chacha(99, m as u64))));
+            r.ok()?.ok().map(|p| p.to_bytes())
+        };
+        let reference_m: Vec<Option<Vec<u8>>> = [1usize, 2, 4].iter().map(|m| prove_on(&fresh(), *m)).collect();
+        for order in [vec![1usize, 4], vec![4, 1], vec![1, 2, 4], vec![2, 1], vec![4, 2, 1], vec![2, 4]] {
+            let shared = fresh();
+            for (pos, m) in order.iter().enumerate() {
+                let got = prove_on(&shared, *m);
+                let idx = [1usize, 2, 4].iter().position(|x| x == m).unwrap();
+                out.oracle("C18:shared-parameters-history-independent", got.is_some() && got == reference_m[idx], &format!("shared parameters (bits 8, capacity 4), aggregation order {:?}, position {}", order, pos), "a prover call on shared parameters depends on the calls made before it");
+            }
+        }
+        // threads racing the first prover use of one shared parameter object
+        for round in 0..(if opts.thorough { 8 } else { 3 }) {
+            let shared = Arc::new(fresh());
+            let barrier = Arc::new(Barrier::new(6));
+            let hs: Vec<_> = (0..6usize)
+                .map(|i| {
+                    let (sh, b) = (shared.clone(), barrier.clone());
+                    std::thread::spawn(move || {
+                        let m = [1usize, 2, 4][(i + round) % 3];
+                        let mut r = chacha(31337, m as u64);
+                        let inst = rrun::random_inst(8, m, 4, 2, 4, false, &mut r);
+                        let c = inst.commitments(&sh);
+                        let st = RangeStatement::init((*sh).clone(), c, inst.promises.clone(), None).unwrap();
+                        b.wait();
+                        let r = std::panic::catch_unwind(std::panic::AssertUnwindSafe(|| rrun::Proof::prove_with_rng(&mut inst.transcript(), &st, &inst.witness(), &mut chacha(99, m as u64))));
+                        (m, r.ok().and_then(|x| x.ok()).map(|p| p.to_bytes()))
+                    })
+                })
+                .collect();
+            for h in hs {
+                if let Ok((m, got)) = h.join() {
+                    let idx = [1usize, 2, 4].iter().position(|x| *x == m).unwrap();
+                    out.oracle("C18:shared-parameters-thread-safe", got.is_some() && got == reference_m[idx], &format!("round {} aggregation {}", round, m), "racing prover calls on shared parameters differ from the reference");
+                }
+            }
+        }
+    }
     // (c) threads sharing parameter objects (clones share the Arc'd tables)
     let nthreads = 16;
     let rounds = if opts.thorough { 6 } else { 2 };
